@@ -23,7 +23,7 @@ Proof. intros Ha He. apply wbp_app; [exact Ha | constructor; [exact He | constru
 Lemma run_test_wbp l t b s : nth_error (tests w) t = Some b -> t_layer b = l ->
   wbp w (rs_ev s) -> wbp w (rs_ev (run_test w o l t b s)).
 Proof.
-  intros Hn Hl Hs. unfold run_test. destruct (fold_effect w o l t (proto b) s) as [_ [_ [_ [_ [_ [_ E]]]]]]. rewrite E.
+  intros Hn Hl Hs. destruct (run_test_effect w o l t b s) as [_ [_ [_ [_ [_ [_ E]]]]]]. rewrite E.
   apply wbp_app; [exact Hs|]. rewrite <- (app_nil_r (flat_map _ _)). econstructor; try eassumption. constructor.
 Qed.
 
